@@ -22,6 +22,7 @@ Not decided: numerical orthogonality, svds/eigsh convergence, ties.
 """
 from .. import protocols
 from ..harness import arr, index, integer, scalar
+from .. import tq
 from ..interp import State
 from ..terms import FRESH, Dim, T, V, vconst, fresh_id
 
@@ -30,7 +31,8 @@ FLOOR = 60
 
 def _assume(term, node, interp):
     # the selected column is not numerically zero (otherwise a warning path)
-    if term.op == "lt" and term.args[0].op == "norm":
+    c = tq.cmp_parts(term)
+    if c is not None and c[1].op == "norm":
         return False
     if term.op == "raises":
         return False
@@ -58,7 +60,7 @@ def check(ctx):
         ctx.ob("NF-PI", f"CUR.{pkg}: svds seeded from random_state", len(sinks) == 1 and sinks[0]["seed"] is not None and sinks[0]["seed"].term == rs.term, f"{[(e['fn'], e['seed']) for e in sinks]}", site, pkg)
         cls = P.cls(f"skmatter.{pkg}_selection.PCovCUR")
         for small in (True, False):
-            I, st = ctx.interp(order=[("k", "<", S + "") if small else ("k", ">=", S)], assume=lambda t, n, i, small=small: (small if t.op in ("lt",) and "k" in repr(t) else None)), State()
+            I, st = ctx.interp(order=[("k", "<", S + "") if small else ("k", ">=", S)], assume=lambda t, n, i, small=small: (small if tq.cmp_parts(t) is not None and tq.has_size(t, "k") else None)), State()
             mix = scalar("alpha", 0, 1, True, True)
             o = ctx.bare_object(I, st, cls, {"_axis": axis, "k": k, "mixing": mix})
             yc = arr("yc", "N", "P", inp=False)
